@@ -1,6 +1,6 @@
 """props.py: per-property configuration of ./check"""
 
-GENERATORS = ['gen.py', 'gen_deps.py']
+GENERATORS = ['gen.py', 'gen_deps.py', 'gen_files.py']
 
 PROPS = {
     'C01': dict(
@@ -236,5 +236,34 @@ PROPS = {
                    'nodes, and get_dx returns exactly D15 (interpolated or extrapolated on the same log-linear line), D50 and D85. get_dx rejects '
                    'fractions outside (0,1) and returns node values at nodes.',
         level_note='Hand-written model compared bit for bit (whole dict) with create_fracs on 3-, 4- and 5-point inputs, with get_dx and generate_GSD.',
+    ),
+    'C15': dict(
+        own_files=['Lemmas/LC15a.v', 'Props/C15.v'],
+        corr=[dict(script='corr_excel.py', n=4, n_thorough=40)],
+        search='C15.py', budget_quick=12, budget_thorough=250,
+        partial=['C15_roundtrip of the whole workbook (sections, pumps, curves, drivers): the loader side is modelled (Models/Excel.v) and compared '
+                 'with the real loader on real store_to_excel output, but store_to_excel itself is not modelled and load(store p) = p is not a '
+                 'theorem; it is searched on generated pipelines (objects compared field by field, heads at 1e-9)',
+                 'numbers pass through openpyxl, which writes 16 significant digits: equality of stored numbers is up to that rounding'],
+        level_text='Proof: (file name, whitelist regenerated from the source) for every list of code points as pipeline name / requested name / time '
+                   'stamp the stored base name is [A-Za-z0-9_-]* followed by ".xlsx", contains no path separator (so it is a direct child of the '
+                   'requested folder) and a trailing ".xlsx" is not doubled; (grading) the three stored diameters D15/D50/D85 regenerate exactly '
+                   'the same grading for every slurry with ratios above 1 and D50 above the pseudo-liquid limit, whatever the solids density.',
+        level_note='The whole-workbook round trip is partial (search). xlsx number formatting and openpyxl are trusted oracles.',
+    ),
+    'C16': dict(
+        own_files=['Lemmas/LC16.v', 'Props/C16.v'],
+        corr=[dict(script='corr_excel.py', n=4, n_thorough=40)],
+        search='C16.py', budget_quick=450, budget_thorough=6000,
+        partial=['C16 well-formed workbooks load: proved is that after a passed validation every read of a validated single-value field succeeds; '
+                 'that the table cells are numeric / the curves non-empty is an extra premise outside the property\'s fault list and is not '
+                 'discharged by validation (a blank cell INSIDE a table still escapes as TypeError, as the model and the real loader agree)'],
+        level_text='Proof (model of validate_excel and the loaders with exception classes): a passed validation implies exactly one pipeline and '
+                   'one slurry sheet and every required named range present in the required shape on every typed sheet; each listed fault -- '
+                   'missing/duplicated required sheet, missing name, blank or text value in a numeric single-value field, missing or duplicated '
+                   'table column, pump named in the pipe table without a tab -- yields InvalidExcelError and the field checks raise no foreign '
+                   'exception when table headers are text.',
+        level_note='Model compared with the real loader on every single fault of the shipped example and of stored generated pipelines (outcome '
+                   'class incl. foreign exception classes, and every loaded field). The search enumerates the faults on real files.',
     ),
 }
